@@ -18,6 +18,8 @@ pub struct VerifyReport {
     /// stack height not bounded on some loop (C11's residue concern, not a C02 violation)
     pub unbounded_growth: bool,
     pub units: usize,
+    /// number of global variables declared so far (highest SetGlobal index + 1, or what earlier programs declared)
+    pub globals: usize,
     pub cond_jumps: usize,
     pub back_edges: usize,
     pub instructions: usize,
@@ -74,6 +76,12 @@ pub fn uncovered_opcodes(t: &Table) -> Vec<String> {
 }
 
 pub fn verify(code: &Bytecode, t: &Table) -> VerifyReport {
+    verify_after(code, t, 0)
+}
+
+/// `known_globals`: the number of global variables that programs compiled earlier by the same compiler have declared
+/// (their code need not be part of `code` any more)
+pub fn verify_after(code: &Bytecode, t: &Table, known_globals: usize) -> VerifyReport {
     let mut rep = VerifyReport::default();
     let mut add = |rep: &mut VerifyReport, class: &str, detail: String| {
         if !rep.findings.iter().any(|f| f.class == class) {
@@ -96,7 +104,8 @@ pub fn verify(code: &Bytecode, t: &Table) -> VerifyReport {
     let n_consts = code.constants.len();
     let max_builtin = 6usize;
     // number of globals the program declares = highest SetGlobal index + 1
-    let n_globals = ins.iter().filter(|i| i.name == "SetGlobal").map(|i| i.args[0] + 1).max().unwrap_or(0);
+    let n_globals = ins.iter().filter(|i| i.name == "SetGlobal").map(|i| i.args[0] + 1).max().unwrap_or(0).max(known_globals);
+    rep.globals = n_globals;
     // (2) code units: the top level and every function constant
     // the top-level unit starts where this program starts (code of earlier programs of the same compiler precedes it)
     let mut units: Vec<(usize, i64, bool)> = vec![(code.start, 0, false)]; // (entry, locals, is_function)
